@@ -1,4 +1,14 @@
 ; ---- specification vocabulary shared by contracts (see spec/pyspec.py for the executable twins)
+; Identity membership of a value in a sequence: ismem(s, x) stands for (seq.contains s (seq.unit x)).
+; It is kept uninterpreted so that proofs about it are E-matching over the facts below and the instance facts the executor emits
+; where it builds a list (concatenation, append, prefix, member at an index); each fact schema is a theorem of the
+; seq.contains reading, re-proved on every run by lemma IS-MEM (spec/lemmas/ismem_*.smt2).
+(declare-fun lseq (V) (Seq V))           ; alias of the macro seqof, usable in patterns
+(assert (forall ((s (Seq V))) (! (= (lseq (v_list s)) s) :pattern ((lseq (v_list s))))))
+(assert (forall ((s (Seq V))) (! (= (lseq (v_tuple s)) s) :pattern ((lseq (v_tuple s))))))
+(declare-fun ismem ((Seq V) V) Bool)
+(assert (forall ((x V)) (! (not (ismem (as seq.empty (Seq V)) x)) :pattern ((ismem (as seq.empty (Seq V)) x)))))
+(assert (forall ((c V) (x V)) (! (= (ismem (seq.unit c) x) (= x c)) :pattern ((ismem (seq.unit c) x)))))
 ; denotation of an element and the model it builds: uninterpreted at the leaves of the call graph,
 ; characterised by the contracts of Element.__call__ and friends
 (declare-fun sem (V V) Bool)
@@ -17,7 +27,7 @@
 (declare-fun csem (V V) Bool)            ; the element's `construct` succeeds on the value
 (declare-fun cbuild (V V) V)             ; ... and this is what it returns
 (define-fun accepts_all ((vs V) (v V)) Bool
-  (forall ((j Int)) (=> (and (<= 0 j) (< j (seq.len (seqof vs)))) (not (vrejects (seq.nth (seqof vs) j) v)))))
+  (forall ((m V)) (! (=> (ismem (lseq vs) m) (not (vrejects m v))) :pattern ((ismem (lseq vs) m)))))
 ; SEM-DEF: for element *instances* (everything whose call is Element.__call__): a passed value is accepted iff every
 ; validator accepts it and construct succeeds; the result is construct's
 (assert (forall ((e V) (v V)) (! (=> (not (k_np v)) (and (= (sem e v) (and (accepts_all (validators_of e) v) (csem e v)))
@@ -26,5 +36,7 @@
 ; what calling an element with no value yields (its converted default, the raw default, or NotPassed): C05's clause,
 ; characterised by the contract of Element.__call__ / Object.__new__
 (declare-fun dflt (V) V)
+(declare-fun item_anns (V) V)     ; Array.item_annotations of an array element (function of the element between writes)
+(declare-fun ann (V) String)      ; the annotation text of an element (Element.annotation under dynamic dispatch)
 ; Properties.__getitem__(k): the property governing key k
 (declare-fun prop_for (V String) V)
